@@ -85,6 +85,36 @@ def check(ctx):
             continue
         ok, why = intercepted(an, to_tree, g, n)
         ctx.ob("forward", g, n.ast, ok, why, node=n)
+        if ok:
+            # the interception sits in to_tree and sees the *outermost* value only.  If the same function is also entered
+            # with an element of a container (a list inside a list, a list inside a dict), that inner value never passes
+            # to_tree's guard and its configurations are rendered by this edge -- without the mask.
+            for f2 in an.reachable_fns([to_tree]):
+                if f2 is to_tree:
+                    continue
+                for n2 in an.cfg(f2).nodes:
+                    if n2.kind != "call" or g not in an.callees(f2, n2):
+                        continue
+                    tgs2 = [t for t in an.targets(f2, n2) if t.kind == "fn" and t.fn is g]
+                    nested = False
+                    for t in tgs2:
+                        b = an.bind_args(t, f2, n2)
+                        for p_, a_ in b.items():
+                            if p_ == g.self_name or a_ is None or not isinstance(a_, ast.Name):
+                                continue
+                            for k, pl in value_sources(f2, a_, n2):
+                                if k != "iter":
+                                    continue
+                                it, idx = pl[0], pl[1]
+                                if isinstance(it, ast.Call) and isinstance(it.func, ast.Attribute) and it.func.attr == "items" and idx == 0:
+                                    continue        # a dict key: hashable, never a list or a configuration
+                                nested = True
+                    if nested:
+                        ctx.ob("forward.nested-containers", f2, n2.ast, False,
+                               "%s hands the *elements* of its value to %s, which renders configurations through an edge without the mask; "
+                               "Config.to_tree intercepts only the outermost list, so configurations inside nested containers "
+                               "(ListField(ListField(schema)), DictField(..., ListField(schema))) are rendered unmasked" % (f2.qualname, g.qualname),
+                               node=n2)
 
     # ---------------------------------------------------------------- C10.2 sensitive branch
     # decided by specialising to_tree: "a mask is given / the field is sensitive / the value is non-empty / the mask is one
